@@ -33,8 +33,8 @@ ASSUMPTIONS = ["real MPI transport, mpi4py pickling and message matching with ta
                "are outside the model",
                "floating-point addition is deterministic given operands and order (IEEE-754), so equal trees give equal bits"]
 
-KINDS = ["int", "float", "ndarray", "field", "multifield"]
-TY = {"int": "plain", "float": "plain", "ndarray": "ndarray", "field": {"field": "plain"},
+KINDS = ["int", "float", "list", "ndarray", "field", "multifield"]
+TY = {"int": "plain", "float": "plain", "list": "plain", "ndarray": "ndarray", "field": {"field": "plain"},
       "multifield": {"multifield": 2}}
 POOL = [1e16, 1.0, -1e16, 3.0, 1e-3, -1.0, 2.0 ** 53, -(2.0 ** 53), 0.1, 7.0, 1e-17, -3.0]
 
@@ -49,6 +49,8 @@ def _summand(kind, vals, i):
         return int(v)
     if kind == "float":
         return float(v)
+    if kind == "list":  # `+` is concatenation: not commutative, exposes swapped operands (optimize_kl sums lists)
+        return [[i, float(v).hex()]]
     arr = np.array([v, -v, vals[(i + 1) % len(vals)]], dtype=np.float64)
     if kind == "ndarray":
         return arr
@@ -68,6 +70,8 @@ def _plain(kind, vals, i):
         return int(v)
     if kind == "float":
         return float(v)
+    if kind == "list":
+        return [[i, float(v).hex()]]
     arr = np.array([v, -v, vals[(i + 1) % len(vals)]], dtype=np.float64)
     if kind == "multifield":
         return np.concatenate([arr, arr[::-1]])
@@ -78,6 +82,8 @@ def _enc(kind, x):
     import numpy as np
     if kind == "int":
         return [int(x)]
+    if kind == "list":
+        return [list(t) for t in x]
     if kind == "float":
         return [float(x).hex()]
     if kind == "ndarray":
@@ -92,6 +98,8 @@ def _enc_plain(kind, x):
     import numpy as np
     if kind == "int":
         return [int(x)]
+    if kind == "list":
+        return [list(t) for t in x]
     if kind == "float":
         return [float(x).hex()]
     return [float(t).hex() for t in np.asarray(x).ravel()]
@@ -181,11 +189,11 @@ def oracle(case):
         return None  # rejected inputs are not in the scope of the property
     ser = _serial(case)
     want = _enc_plain(kind, _eval_tree(_ref_tree(n), lambda i: _plain(kind, vals, i)))
-    sig0 = {"site": "allreduce_sum", "kind": kind}
+    sig0 = {"site": "allreduce_sum"}
     if ser != want:
         return (f"serial allreduce_sum over {n} {kind} summands {vals} returns {ser}, the pairwise tree gives {want}",
                 dict(sig0, what="serial-tree"))
-    for seed in case.get("seeds", [0, 1, 2]):
+    for seed in case.get("seeds", [0]):
         o = _single(case, seed)
         if o["fail"]:
             return (f"allreduce_sum with partition {counts} ({kind}) does not complete under synchronous sends: {o['fail']}",
@@ -244,7 +252,7 @@ def _check_batch(ctx, cases, p, seed, model):
             ctx.stat("real-run-failed")
             ctx.counterexample(c, f"allreduce_sum with partition {c['counts']} ({c['kind']}) does not complete under "
                                   f"synchronous sends: {o['fail']}",
-                               {"site": "allreduce_sum", "kind": c["kind"], "what": o["fail"]["kind"]})
+                               {"site": "allreduce_sum", "what": o["fail"]["kind"]})
             continue
         if "error" in m:
             impl = o["values"][0] if all(v == o["values"][0] for v in o["values"]) else {"values": o["values"]}
@@ -266,7 +274,7 @@ def _check_batch(ctx, cases, p, seed, model):
             ser = _serial(c)
             if ser != want:
                 ctx.counterexample(c, f"serial allreduce_sum returns {ser}, distributed/pairwise tree {want}",
-                                   {"site": "allreduce_sum", "kind": c["kind"], "what": "serial-tree"})
+                                   {"site": "allreduce_sum", "what": "serial-tree"})
 
 
 def run(ctx):
@@ -279,7 +287,7 @@ def run(ctx):
     for p in range(1, P + 1):
         for n in range(1, N + 1):
             for counts in _compositions(n, p):
-                kinds = KINDS if not ctx.quick else ["float"]
+                kinds = KINDS if not ctx.quick else ["float", "list"][: 1 + (n + p) % 2]
                 for kind in kinds:
                     by_p.setdefault(p, []).append(dict(counts=counts, kind=kind, vals=_mkvals(rng, n, kind)))
     # sampled block (quick: the larger sizes and the other kinds) ------------------------------------
